@@ -150,6 +150,7 @@ type outcome struct {
 	mode      int64
 	started   []ep
 	introspOK bool
+	fenceRead bool // the muxer went on reading after the probe (= probe accepted)
 	// only write errors (io.ErrClosedPipe) were seen: cannot tell whether the muxer
 	// had rejected the probe (its own error may lose the race for the error channel)
 	ambiguous bool
@@ -261,8 +262,20 @@ func dial(c config, p *probe, inspect bool) *outcome {
 		case <-time.After(longWait):
 		}
 	}
-	// hang up: a connection that accepted everything so far now sees EOF (or, if it
-	// is writing at that moment, io.ErrClosedPipe from net.Pipe)
+	if p != nil && o.firstErr == nil {
+		// the fence: a zero-length header written on its own.  net.Pipe completes a
+		// Write only when the reader consumed it: the muxer consumes the fence iff its
+		// read loop is still running, i.e. iff it did NOT reject the probe; after a
+		// rejection the read loop has returned and the write fails once the muxer
+		// closes the connection.  No error text or error-channel race is involved.
+		switch err := peer.WriteChunks([][]byte{muxpeer.Header(3, 0, 0)}, 2*longWait); {
+		case err == nil:
+			o.fenceRead = true
+		case errors.Is(err, os.ErrDeadlineExceeded):
+			o.hung = "the fence segment was neither read nor refused"
+		}
+	}
+	// hang up
 	ca.Close()
 	if o.firstErr == nil {
 		select {
@@ -474,13 +487,6 @@ func runProbe(c *vh.Ctx, cf *vh.CaseFile, cfg config, p probe) {
 	rp := replay{Cfg: cfg, Probe: &p}
 	c.Begin(rp)
 	o := dial(cfg, &p, false)
-	for i := 0; i < 6 && o.ambiguous && o.hung == ""; i++ {
-		o = dial(cfg, &p, false)
-	}
-	if o.ambiguous {
-		c.Res.Notes = append(c.Res.Notes, "probe outcome ambiguous (only write errors observed); case skipped")
-		return
-	}
 	pid, isResp := p.Raw&0x7fff, p.Raw&0x8000 != 0
 	class := map[bool]string{false: "request", true: "response"}[isResp]
 	canon, _ := json.Marshal(rp)
@@ -493,7 +499,7 @@ func runProbe(c *vh.Ctx, cf *vh.CaseFile, cfg config, p probe) {
 		c.Res.Violate("monitor", "setup-failed", fmt.Sprintf("NewConnection failed after a valid handshake: %v", o.setupErr), rp)
 		return
 	}
-	accepted := o.closedOK
+	accepted := o.fenceRead
 	// monitor (property text)
 	switch {
 	case !isResp && !roleEnabled(cfg, true) && accepted:
@@ -557,7 +563,7 @@ func probesFor(cfg config, r *vh.Rng) []probe {
 func run(c *vh.Ctx) error {
 	c.Res.Rule = "every combination of server/client, NtN/NtC/DMQ, full-duplex asked, keep-alives, peer-sharing, delayed start, every version of the family, peer duplex flag (NtN) is dialled against the real Connection with a scripted handshake; setup cases record muxer registrations, diffusion mode and started instances; probe cases glue one request / response / foreign-protocol segment to the handshake message and record accepted vs failed; distinct by configuration (+probe); all non-trivial"
 	c.Res.Modelled = []string{
-		"registrations, diffusion mode and started flags are read from unexported fields by reflection (no hook); 'accepted' = the first error after the probe is the EOF caused by the peer hanging up",
+		"registrations, diffusion mode and started flags are read from unexported fields by reflection (no hook); 'accepted' = the muxer went on reading after the probe: a fence segment written afterwards is consumed (net.Pipe write completes) instead of failing",
 		"query mode, DMQ node-to-node and handshake failures are outside the model; the negotiated version is scripted (any version of the family)",
 	}
 	cf := c.NewCaseFile("c17", header)
@@ -593,12 +599,6 @@ func run(c *vh.Ctx) error {
 		runSetup(c, cf, cfg)
 	}
 	for i, cfg := range cfgs {
-		if cfg.KeepAlive && !cfg.Server {
-			// a client that sends keep-alives writes on its own: its write error and the
-			// muxer's rejection race for the error channel; the keep-alive option is
-			// covered by the setup cases
-			continue
-		}
 		if !c.Thorough() && (cfg.PeerSharing || ((uint32(i)*2654435761>>9)^uint32(c.Seed))%2 != 0) && cfg.Kind != "dmq" {
 			continue
 		}
